@@ -27,35 +27,36 @@ type API[M, A any, V arith.Vec[V, E], E arith.Elt] interface {
 }
 
 type Event struct {
-	Ev      string      `json:"ev"`
-	Tr      int         `json:"tr"`
-	Inst    string      `json:"inst"`
-	A       interface{} `json:"a"`
-	B       interface{} `json:"b"`
-	C       interface{} `json:"c"`
-	Shares  int         `json:"shares"`
-	Outcome string      `json:"outcome"`
-	MeasLen int         `json:"measlen"`
-	OutLen  int         `json:"outlen"`
-	JrLen   int         `json:"jrlen"`
-	Kind    string      `json:"kind"`
-	M       interface{} `json:"m"`
-	Enc     [][]int     `json:"enc"`
-	Site    string      `json:"site"`
-	Stage   string      `json:"stage"`
-	Accepted  bool      `json:"accepted"`
-	Bound     bool      `json:"bound"`
-	RtOK      bool      `json:"rt_ok"`
-	EncodeErr bool      `json:"encode_err"`
-	Panics  int         `json:"panics"`
-	Num     int         `json:"num"`
-	Result  [][]int     `json:"result"`
-	Err     bool        `json:"err"`
-	Note    string      `json:"note"`
+	Ev        string      `json:"ev"`
+	Tr        int         `json:"tr"`
+	Inst      string      `json:"inst"`
+	A         interface{} `json:"a"`
+	B         interface{} `json:"b"`
+	C         interface{} `json:"c"`
+	Shares    int         `json:"shares"`
+	Outcome   string      `json:"outcome"`
+	MeasLen   int         `json:"measlen"`
+	OutLen    int         `json:"outlen"`
+	JrLen     int         `json:"jrlen"`
+	Kind      string      `json:"kind"`
+	M         interface{} `json:"m"`
+	Enc       [][]int     `json:"enc"`
+	Site      string      `json:"site"`
+	Stage     string      `json:"stage"`
+	Accepted  bool        `json:"accepted"`
+	Bound     bool        `json:"bound"`
+	RtOK      bool        `json:"rt_ok"`
+	Owned     bool        `json:"owned"`
+	EncodeErr bool        `json:"encode_err"`
+	Panics    int         `json:"panics"`
+	Num       int         `json:"num"`
+	Result    [][]int     `json:"result"`
+	Err       bool        `json:"err"`
+	Note      string      `json:"note"`
 }
 
 func blank(ev string, tr int, inst string) Event {
-	return Event{Ev: ev, Tr: tr, Inst: inst, A: 0, B: 0, C: 0, M: 0, Enc: [][]int{}, Result: [][]int{}, Site: "none", RtOK: true}
+	return Event{Ev: ev, Tr: tr, Inst: inst, A: 0, B: 0, C: 0, M: 0, Enc: [][]int{}, Result: [][]int{}, Site: "none", RtOK: true, Owned: true}
 }
 
 // NewEvent records a constructor call.
@@ -130,6 +131,7 @@ type result[V arith.Vec[V, E], E arith.Elt] struct {
 	accepted bool
 	stage    string
 	rtOK     bool
+	owned    bool
 	out      []*prio3.OutShare[V, E]
 }
 
@@ -156,7 +158,7 @@ func prepare[M, A any, V arith.Vec[V, E], E arith.Elt, F arith.Fp[E]](
 	jr := p.JointRandLength() > 0
 	var e0 E
 	sz := int(F(&e0).Size())
-	r.rtOK = true
+	r.rtOK, r.owned = true, true
 	victim := rng.Intn(n)
 	helper := 1 + rng.Intn(n-1)
 	fail := func(stage string) (result[V, E], bool) { r.stage = stage; return r, applied }
@@ -239,6 +241,14 @@ func prepare[M, A any, V arith.Vec[V, E], E arith.Elt, F arith.Fp[E]](
 		if err != nil {
 			return fail("marshal-state")
 		}
+		// the aggregator decodes its next report into the same InputShare object: the state it was handed for THIS report owns its data
+		if ib, err := in[j].MarshalBinary(); err == nil {
+			if err := in[j].UnmarshalBinary(make([]byte, len(ib))); err == nil {
+				if sb3, _ := st.MarshalBinary(); !bytes.Equal(sb, sb3) {
+					r.owned = false
+				}
+			}
+		}
 		states[j] = new(prio3.PrepState[V, E]).New(&p)
 		if err := states[j].UnmarshalBinary(sb); err != nil {
 			return fail("decode-state")
@@ -265,6 +275,9 @@ func prepare[M, A any, V arith.Vec[V, E], E arith.Elt, F arith.Fp[E]](
 		if b2, _ := pshares[j].MarshalBinary(); !bytes.Equal(b, b2) {
 			r.rtOK = false
 		}
+	}
+	if site == "prep-shares-none" { // no preparation share reaches the combining step: nothing was verified, so nothing is accepted
+		pshares, applied = nil, true
 	}
 	msg, err := api.PrepSharesToPrep(pshares)
 	if err != nil {
@@ -317,7 +330,7 @@ func prepare[M, A any, V arith.Vec[V, E], E arith.Elt, F arith.Fp[E]](
 }
 
 var Sites = []string{"leader-meas", "leader-proof", "leader-blind", "helper-seed", "helper-blind", "public-share", "swap-helpers",
-	"other-report-leader", "other-report-helper", "nonce-one", "nonce-all", "verify-key-one", "prep-share-verifier", "prep-share-jrpart", "prep-msg-one", "prep-msg-missing"}
+	"other-report-leader", "other-report-helper", "nonce-one", "nonce-all", "verify-key-one", "prep-share-verifier", "prep-share-jrpart", "prep-msg-one", "prep-msg-missing", "prep-shares-none"}
 
 // invalid encodings derived from valid ones (big integers; pm1 = p - 1)
 func (s *Session[M, A, V, E, F]) evil(valid [][]*big.Int, pm1 *big.Int, rng *rand.Rand) (out [][]*big.Int, notes []string) {
@@ -461,7 +474,7 @@ func Run[M, A any, V arith.Vec[V, E], E arith.Elt, F arith.Fp[E]](s *Session[M, 
 		if oc.Bad() {
 			e.Panics, e.Note = 1, oc.Panic
 		}
-		e.Accepted, e.Stage, e.RtOK = r.accepted, r.stage, r.rtOK
+		e.Accepted, e.Stage, e.RtOK, e.Owned = r.accepted, r.stage, r.rtOK, r.owned
 		if r.accepted {
 			for j := range aggs {
 				s.Pub.AggregateUpdate(&aggs[j], r.out[j])
